@@ -125,3 +125,74 @@ func fpRun(args []string) error {
 	}
 	return tw.close()
 }
+
+// fp-funcs (C02, C03): per-function fingerprints of generated files under the requested policies.
+func init() { register("fp-funcs", fpFuncs) }
+
+func fpFuncs(args []string) error {
+	fs := flag.NewFlagSet("fp-funcs", flag.ExitOnError)
+	planPath := fs.String("plan", "", "json {files:[path...], policies:[default|keepall]}")
+	out := fs.String("out", "", "ndjson")
+	fs.Parse(args)
+	var plan struct {
+		Files    []string `json:"files"`
+		Policies []string `json:"policies"`
+	}
+	if err := readJSON(*planPath, &plan); err != nil {
+		return err
+	}
+	type job struct{ file, pol string }
+	var jobs []job
+	for _, f := range plan.Files {
+		for _, p := range plan.Policies {
+			jobs = append(jobs, job{f, p})
+		}
+	}
+	results := make([]map[string]any, len(jobs))
+	sem := make(chan struct{}, 12)
+	var wg sync.WaitGroup
+	for i, j := range jobs {
+		wg.Add(1)
+		sem <- struct{}{}
+		go func(i int, j job) {
+			defer wg.Done()
+			defer func() { <-sem }()
+			ev := map[string]any{"ev": "fps", "file": j.file, "policy": j.pol}
+			defer func() {
+				if r := recover(); r != nil {
+					ev["error"] = fmt.Sprint("panic: ", r)
+				}
+				results[i] = ev
+			}()
+			src, err := os.ReadFile(j.file)
+			if err != nil {
+				ev["error"] = err.Error()
+				return
+			}
+			pol, strict := policyOf(j.pol)
+			res, err := diff.FingerprintSourceAdvanced(j.file, string(src), pol, strict)
+			if err != nil {
+				ev["error"] = err.Error()
+				return
+			}
+			fps := map[string]string{}
+			for _, r := range res {
+				name := r.FunctionName
+				if k := strings.LastIndex(name, "."); k >= 0 {
+					name = name[k+1:]
+				}
+				fps[name] = r.Fingerprint
+			}
+			ev["fps"] = fps
+		}(i, j)
+	}
+	wg.Wait()
+	tw, err := newTraceWriter(*out)
+	if err != nil {
+		return err
+	}
+	for _, ev := range results {
+		tw.emit(ev)
+	}
+	return tw.close()
+}
